@@ -1149,4 +1149,1143 @@ example (orc : Oracles) (cont : List RItem) (more : List Source) :
   obtain ⟨s', r', h, he, _⟩ := takeOne_breaks orc
   exact take_stops_run orc _ takeOne [] more _ cont none {} {} {} (build_takeOne orc) rfl h he
 
+/-! ### 3. (C16) read faults are fatal; the logs only grow -/
+
+/-- `.err :: post` is a suffix of the unread stream: the reader has not yet pulled this fault.  After ANY action
+either it still has not, or the action failed with the I/O error exactly at it (nothing after it was pulled). -/
+structure PErrStop {α} (m : PM α) : Prop where
+  stop : ∀ r post, (RItem.err :: post) <:+ r.rest →
+    (RItem.err :: post) <:+ (m r).2.rest ∨ ((m r).1 = .error .io ∧ (m r).2.rest = post)
+
+theorem perrstop_pure {α} (a : α) : PErrStop (pure a : PM α) := ⟨fun _ _ h => .inl h⟩
+theorem perrstop_fail {α} (e : PErr) : PErrStop (PM.fail e : PM α) := ⟨fun _ _ h => .inl h⟩
+theorem perrstop_locErr {α} (mk : Loc → PErr) : PErrStop (locErr mk : PM α) := ⟨fun _ _ h => .inl h⟩
+
+theorem perrstop_bind {α β} {m : PM α} {f : α → PM β} (hm : PErrStop m) (hf : ∀ a, PErrStop (f a)) :
+    PErrStop (m >>= f) := by
+  constructor
+  intro r post hs
+  have h1 := hm.stop r post hs
+  simp only [PM.bind_apply]
+  cases h : m r with
+  | mk res r1 =>
+    rw [h] at h1
+    cases res with
+    | error e =>
+      rcases h1 with h1 | ⟨h1, h2⟩
+      · exact .inl h1
+      · exact .inr ⟨by dsimp only at h1 ⊢; cases h1; rfl, h2⟩
+    | ok a =>
+      rcases h1 with h1 | ⟨h1, _⟩
+      · exact (hf a).stop r1 post h1
+      · cases h1
+
+theorem next_perrstop : PErrStop Reader.next := by
+  constructor
+  intro r post hs
+  cases r with
+  | mk rest cur eof loc pulled =>
+    cases eof with
+    | true => exact .inl hs
+    | false =>
+      cases rest with
+      | nil => exact .inl hs
+      | cons it rest =>
+        dsimp only at hs
+        rcases List.suffix_cons_iff.mp hs with h | h
+        · cases h; exact .inr ⟨rfl, rfl⟩
+        · cases it with
+          | err => exact .inl h
+          | byte b => exact .inl h
+
+theorem peek_perrstop : PErrStop Reader.peek := by
+  constructor
+  intro r post hs
+  unfold Reader.peek
+  split
+  · exact .inl hs
+  · exact next_perrstop.stop r post hs
+
+macro "perrstop_step" : tactic => `(tactic| first
+  | with_reducible exact perrstop_pure _
+  | with_reducible exact perrstop_fail _
+  | with_reducible exact perrstop_locErr _
+  | with_reducible exact next_perrstop
+  | with_reducible exact peek_perrstop
+  | with_reducible assumption
+  | with_reducible apply perrstop_bind
+  | intro _
+  | split)
+
+syntax "perrstop" ("[" term,* "]")? : tactic
+macro_rules
+  | `(tactic| perrstop) => `(tactic| repeat' perrstop_step)
+  | `(tactic| perrstop [$ts,*]) =>
+    `(tactic| repeat' (first | perrstop_step $[| with_reducible exact $ts]*))
+
+theorem eatWhitespace_perrstop (fuel : Nat) : PErrStop (eatWhitespace fuel) := by
+  induction fuel with
+  | zero => exact perrstop_fail _
+  | succ fuel ih => unfold eatWhitespace; perrstop
+
+theorem readDigits_perrstop (fuel : Nat) (acc : List Byte) : PErrStop (readDigits fuel acc) := by
+  induction fuel generalizing acc with
+  | zero => exact perrstop_fail _
+  | succ fuel ih => unfold readDigits; perrstop [ih _]
+
+theorem readWordTail_perrstop (word : String) (es : List Byte) : PErrStop (readWordTail word es) := by
+  induction es with
+  | nil => unfold readWordTail; perrstop
+  | cons e es ih => unfold readWordTail; perrstop
+
+theorem readHex4_perrstop (k acc : Nat) : PErrStop (readHex4 k acc) := by
+  induction k generalizing acc with
+  | zero => exact perrstop_pure _
+  | succ k ih => unfold readHex4; perrstop [ih _]
+
+theorem readStringLoop_perrstop (fuel : Nat) (acc : List Byte) : PErrStop (readStringLoop fuel acc) := by
+  induction fuel generalizing acc with
+  | zero => exact perrstop_fail _
+  | succ fuel ih => unfold readStringLoop; perrstop [ih _, readHex4_perrstop _ _]
+
+theorem parseToDouble_perrstop (t : List Byte) : PErrStop (parseToDouble t) := by
+  unfold parseToDouble; perrstop
+
+theorem readNumber_perrstop (fuel : Nat) : PErrStop (readNumber fuel) := by
+  unfold readNumber
+  perrstop [readDigits_perrstop _ _, parseToDouble_perrstop _]
+
+structure ValueErrStop (fuel : Nat) : Prop where
+  value : PErrStop (nextValue fuel)
+  array : PErrStop (readArray fuel)
+  arrayLoop : ∀ acc, PErrStop (readArrayLoop fuel acc)
+  object : PErrStop (readObject fuel)
+  objectLoop : ∀ acc, PErrStop (readObjectLoop fuel acc)
+
+theorem valueErrStop (fuel : Nat) : ValueErrStop fuel := by
+  induction fuel with
+  | zero =>
+    refine ⟨?_, ?_, fun _ => ?_, ?_, fun _ => ?_⟩
+    · unfold nextValue; exact perrstop_fail _
+    · unfold readArray; exact perrstop_fail _
+    · unfold readArrayLoop; exact perrstop_fail _
+    · unfold readObject; exact perrstop_fail _
+    · unfold readObjectLoop; exact perrstop_fail _
+  | succ fuel ih =>
+    refine ⟨?_, ?_, fun _ => ?_, ?_, fun _ => ?_⟩
+    · unfold nextValue
+      perrstop [eatWhitespace_perrstop _, readWordTail_perrstop _ _, readStringLoop_perrstop _ _,
+        readNumber_perrstop _, ih.array, ih.object]
+    · unfold readArray
+      perrstop [eatWhitespace_perrstop _, ih.arrayLoop _]
+    · unfold readArrayLoop
+      perrstop [eatWhitespace_perrstop _, ih.arrayLoop _, ih.value]
+    · unfold readObject
+      perrstop [eatWhitespace_perrstop _, ih.objectLoop _]
+    · unfold readObjectLoop
+      perrstop [eatWhitespace_perrstop _, ih.objectLoop _, ih.value]
+
+/-- a pending read fault: after `nextJson` either it is still pending, or `nextJson` failed with the
+unrecoverable I/O error, having pulled the fault and nothing after it -/
+theorem nextJson_fault (r : Reader) (post : List RItem) (hs : (RItem.err :: post) <:+ r.rest) :
+    (RItem.err :: post) <:+ r.nextJson.2.rest ∨ (r.nextJson.1 = .error .io ∧ r.nextJson.2.rest = post) :=
+  (valueErrStop _).value.stop r post hs
+
+/-- the fault is pulled exactly when fewer items are left than `.err :: post` has -/
+theorem fault_pulled_iff {r' : Reader} {rest post : List RItem} (hs : (RItem.err :: post) <:+ rest)
+    (hm : r'.rest <:+ rest) : ¬ (RItem.err :: post) <:+ r'.rest ↔ r'.rest.length ≤ post.length := by
+  constructor
+  · intro h
+    apply Nat.le_of_not_lt
+    intro hlt
+    exact h ((List.suffix_of_suffix_length_le hs hm (by simp; omega)))
+  · intro h hs'
+    have := hs'.length_le
+    simp at this
+    omega
+
+/-! #### The writers' logs only grow -/
+
+/-- the writer carried by the outcome (the value's writer, or the failure's) extends `w` -/
+def ResExt {α} (get : α → Writer) (w : Writer) : Res α → Prop
+  | .ok a => w.out <+: (get a).out
+  | .error f => w.out <+: f.w.out
+
+theorem resExt_bind {α β} {get : α → Writer} {get' : β → Writer} {w : Writer} {x : Res α} {g : α → Res β}
+    (hx : ResExt get w x) (hg : ∀ a, ResExt get' (get a) (g a)) : ResExt get' w (x >>= g) := by
+  cases x with
+  | error f => exact hx
+  | ok a =>
+    have h1 : w.out <+: (get a).out := hx
+    have h2 := hg a
+    show ResExt get' w (g a)
+    cases hga : g a with
+    | error f => rw [hga] at h2; exact h1.trans h2
+    | ok b => rw [hga] at h2; exact h1.trans h2
+
+theorem resExt_ok {α} {get : α → Writer} {w : Writer} (a : α) (h : w.out <+: (get a).out) :
+    ResExt get w (.ok a) := h
+
+theorem evalE_ext (orc : Oracles) (w : Writer) (e : Expr) (ctx : Ctx) :
+    ResExt (fun _ => w) w (evalE orc w e ctx) := by
+  unfold evalE liftR
+  split
+  · exact List.prefix_refl _
+  · exact List.prefix_refl _
+
+abbrev PW : PState × Decision → Writer := fun x => x.1.w
+
+theorem wres_ext (w0 w : Writer) (h : w0.out <+: w.out) : ResExt id w0 (wres w) := by
+  unfold wres; split <;> exact h
+
+theorem sinkProcess_ext (s : SinkCfg) (n : Nat) (w : Writer) (ctx : Ctx) :
+    ResExt id w (sinkProcess s n w ctx) := by
+  unfold sinkProcess
+  cases s with
+  | json o sep => exact wres_ext _ _ (C16.putAll_prefix _ w)
+  | text o sep =>
+    dsimp only
+    split <;> exact wres_ext _ _ (C16.putAll_prefix _ w)
+
+theorem sinkStart_ext (s : SinkCfg) (titles : List Str) (w : Writer) : ResExt id w (sinkStart s titles w) := by
+  unfold sinkStart
+  cases s with
+  | json o sep => exact List.prefix_refl _
+  | text o sep =>
+    dsimp only
+    split
+    · split
+      · exact wres_ext _ _ (C16.putAll_prefix _ w)
+      · exact List.prefix_refl _
+    · exact List.prefix_refl _
+
+macro "rext_step" : tactic => `(tactic| first
+  | with_reducible exact evalE_ext _ _ _ _
+  | with_reducible exact sinkProcess_ext _ _ _ _
+  | (with_reducible refine resExt_ok _ ?_; exact List.prefix_refl _)
+  | exact List.prefix_refl _
+  | with_reducible assumption
+  | with_reducible apply resExt_bind
+  | intro _
+  | split)
+
+syntax "rext" ("[" term,* "]")? : tactic
+macro_rules
+  | `(tactic| rext) => `(tactic| repeat' rext_step)
+  | `(tactic| rext [$ts,*]) => `(tactic| repeat' (first | rext_step $[| with_reducible exact $ts]*))
+
+theorem feedUntilBreak_ext (next : List StageSt → Writer → Ctx → Res (PState × Decision))
+    (hn : ∀ sts w c, ResExt PW w (next sts w c)) (sts : List StageSt) (w : Writer) (l : List Ctx) :
+    ResExt PW w (feedUntilBreak next sts w l) := by
+  induction l generalizing sts w with
+  | nil => unfold feedUntilBreak; rext
+  | cons c cs ih => unfold feedUntilBreak; rext [hn _ _ _, ih _ _]
+
+theorem feedAllIgnoring_ext (next : List StageSt → Writer → Ctx → Res (PState × Decision))
+    (hn : ∀ sts w c, ResExt PW w (next sts w c)) (sts : List StageSt) (w : Writer) (l : List Ctx) :
+    ResExt PState.w w (feedAllIgnoring next sts w l) := by
+  induction l generalizing sts w with
+  | nil => unfold feedAllIgnoring; rext
+  | cons c cs ih => unfold feedAllIgnoring; rext [hn _ _ _, ih _ _]
+
+/-- `process` only appends to the output log — whether it succeeds or fails -/
+theorem process_ext (orc : Oracles) (sink : SinkCfg) (sinkLen : Nat) (cfgs : List StageCfg)
+    (sts : List StageSt) (w : Writer) (ctx : Ctx) : ResExt PW w (process orc sink sinkLen cfgs sts w ctx) := by
+  induction cfgs generalizing sts w ctx with
+  | nil => unfold process; rext
+  | cons c cs ih =>
+    cases sts with
+    | nil => unfold process; rext
+    | cons st sts =>
+      unfold process
+      dsimp only
+      rext [ih _ _ _, feedUntilBreak_ext _ (fun _ _ _ => ih _ _ _) _ _ _]
+
+theorem process_ext_ok {orc : Oracles} {sink : SinkCfg} {sinkLen : Nat} {cfgs : List StageCfg}
+    {sts : List StageSt} {w : Writer} {ctx : Ctx} {ps : PState} {d : Decision}
+    (h : process orc sink sinkLen cfgs sts w ctx = .ok (ps, d)) : w.out <+: ps.w.out := by
+  have := process_ext orc sink sinkLen cfgs sts w ctx
+  rw [h] at this; exact this
+
+theorem process_ext_error {orc : Oracles} {sink : SinkCfg} {sinkLen : Nat} {cfgs : List StageCfg}
+    {sts : List StageSt} {w : Writer} {ctx : Ctx} {f : Failure}
+    (h : process orc sink sinkLen cfgs sts w ctx = .error f) : w.out <+: f.w.out := by
+  have := process_ext orc sink sinkLen cfgs sts w ctx
+  rw [h] at this; exact this
+
+/-- `complete` only appends to the output log -/
+theorem complete_ext (orc : Oracles) (sink : SinkCfg) (sinkLen : Nat) (cfgs : List StageCfg)
+    (sts : List StageSt) (w : Writer) : ResExt id w (complete orc sink sinkLen cfgs sts w) := by
+  induction cfgs generalizing sts w with
+  | nil => unfold complete; rext
+  | cons c cs ih =>
+    cases sts with
+    | nil => unfold complete; rext
+    | cons st sts =>
+      unfold complete
+      rext [ih _ _, process_ext _ _ _ _ _ _ _, feedAllIgnoring_ext _ (fun _ _ _ => process_ext _ _ _ _ _ _ _) _ _ _]
+
+/-! #### The read loop as a transition system -/
+
+/-- a configuration of the read loop: the reader, the ordinal in the file, the run state -/
+structure Conf where
+  r : Reader
+  inFile : Nat
+  s : RunState
+
+section Trace
+variable (orc : Oracles) (c : Cfg) (p : Pipeline)
+
+/-- the context `readLoop` hands to the pipeline for the value `v` read from `r`, leaving `r'` -/
+def rowCtx (r r' : Reader) (v : JV) (inFile : Nat) (s : RunState) : Ctx :=
+  { input := v, ictx := some { startLoc := r.loc, endLoc := r'.loc, fileIndex := inFile, index := s.index } }
+
+/-- one iteration of `readLoop` that is followed by another one -/
+inductive Iter : Conf → Conf → Prop
+  | skip {k : Conf} {v : JV} {r' : Reader} : k.r.nextJson = (.ok (some v), r') →
+      (c.onlyObjectsAndArrays && !v.isObjOrArr) = true → Iter k ⟨r', k.inFile, k.s⟩
+  | row {k : Conf} {v : JV} {r' : Reader} {ps : PState} : k.r.nextJson = (.ok (some v), r') →
+      (c.onlyObjectsAndArrays && !v.isObjOrArr) = false →
+      process orc p.sink p.sinkLen p.cfgs k.s.sts k.s.out (rowCtx k.r r' v k.inFile k.s) = .ok (ps, .cont) →
+      Iter k ⟨r', k.inFile + 1, { k.s with sts := ps.sts, out := ps.w, index := k.s.index + 1 }⟩
+  | ignore {k : Conf} {e : PErr} {r' : Reader} : k.r.nextJson = (.error e, r') → e.canRecover = true →
+      c.onError = .ignore → Iter k ⟨r', k.inFile, k.s⟩
+  | stdout {k : Conf} {e : PErr} {r' : Reader} : k.r.nextJson = (.error e, r') → e.canRecover = true →
+      c.onError = .stdout → (k.s.out.put (reportBytes e)).failed = false →
+      Iter k ⟨r', k.inFile, { k.s with out := k.s.out.put (reportBytes e) }⟩
+  | stderr {k : Conf} {e : PErr} {r' : Reader} : k.r.nextJson = (.error e, r') → e.canRecover = true →
+      c.onError = .stderr → (k.s.err.put (reportBytes e)).failed = false →
+      Iter k ⟨r', k.inFile, { k.s with err := k.s.err.put (reportBytes e) }⟩
+
+/-- the last iteration of `readLoop`, and what the loop returns -/
+inductive Final : Conf → Except RunEnd (RunState × Reader × Decision) → Prop
+  | eof {k : Conf} {r' : Reader} : k.r.nextJson = (.ok none, r') → Final k (.ok (k.s, r', .cont))
+  | brk {k : Conf} {v : JV} {r' : Reader} {ps : PState} : k.r.nextJson = (.ok (some v), r') →
+      (c.onlyObjectsAndArrays && !v.isObjOrArr) = false →
+      process orc p.sink p.sinkLen p.cfgs k.s.sts k.s.out (rowCtx k.r r' v k.inFile k.s) = .ok (ps, .brk) →
+      Final k (.ok ({ k.s with sts := ps.sts, out := ps.w }, r', .brk))
+  | stage {k : Conf} {v : JV} {r' : Reader} {f : Failure} : k.r.nextJson = (.ok (some v), r') →
+      (c.onlyObjectsAndArrays && !v.isObjOrArr) = false →
+      process orc p.sink p.sinkLen p.cfgs k.s.sts k.s.out (rowCtx k.r r' v k.inFile k.s) = .error f →
+      Final k (.error ⟨.error f.kind, { k.s with out := f.w, pulled := k.s.pulled ++ [r'.pulled] }⟩)
+  | fault {k : Conf} {e : PErr} {r' : Reader} : k.r.nextJson = (.error e, r') → e.canRecover = false →
+      Final k (.error ⟨.error .io, { k.s with pulled := k.s.pulled ++ [r'.pulled] }⟩)
+  | panic {k : Conf} {e : PErr} {r' : Reader} : k.r.nextJson = (.error e, r') → e.canRecover = true →
+      c.onError = .panic →
+      Final k (.error ⟨.error (.json e), { k.s with pulled := k.s.pulled ++ [r'.pulled] }⟩)
+  | stdoutFail {k : Conf} {e : PErr} {r' : Reader} : k.r.nextJson = (.error e, r') → e.canRecover = true →
+      c.onError = .stdout → (k.s.out.put (reportBytes e)).failed = true →
+      Final k (.error ⟨.error .io, { k.s with out := k.s.out.put (reportBytes e),
+                                               pulled := k.s.pulled ++ [r'.pulled] }⟩)
+  | stderrFail {k : Conf} {e : PErr} {r' : Reader} : k.r.nextJson = (.error e, r') → e.canRecover = true →
+      c.onError = .stderr → (k.s.err.put (reportBytes e)).failed = true →
+      Final k (.error ⟨.error .io, { k.s with err := k.s.err.put (reportBytes e),
+                                               pulled := k.s.pulled ++ [r'.pulled] }⟩)
+
+/-- `n` iterations lead from the first configuration to the second -/
+inductive ReachN : Nat → Conf → Conf → Prop
+  | refl (k : Conf) : ReachN 0 k k
+  | step {n : Nat} {a b d : Conf} : Iter orc c p a b → ReachN n b d → ReachN (n + 1) a d
+
+/-- the second configuration is reachable from the first -/
+def Reach (a b : Conf) : Prop := ∃ n, ReachN orc c p n a b
+
+theorem iter_readLoop {a b : Conf} (h : Iter orc c p a b) (fuel : Nat) :
+    readLoop orc c p (fuel + 1) a.r a.inFile a.s = readLoop orc c p fuel b.r b.inFile b.s := by
+  rw [readLoop]
+  cases h with
+  | skip hn hk => simp only [hn, hk, if_true]
+  | row hn hk hp =>
+    simp only [rowCtx] at hp
+    simp only [hn, hk, hp, Bool.false_eq_true, if_false]
+  | ignore hn hr hpol => simp only [hn, hr, hpol, Bool.not_true, Bool.false_eq_true, if_false]
+  | stdout hn hr hpol hf => simp only [hn, hr, hpol, hf, Bool.not_true, Bool.false_eq_true, if_false]
+  | stderr hn hr hpol hf => simp only [hn, hr, hpol, hf, Bool.not_true, Bool.false_eq_true, if_false]
+
+theorem final_readLoop {k : Conf} {res : Except RunEnd (RunState × Reader × Decision)}
+    (h : Final orc c p k res) (fuel : Nat) : readLoop orc c p (fuel + 1) k.r k.inFile k.s = res := by
+  rw [readLoop]
+  cases h with
+  | eof hn => simp only [hn]
+  | brk hn hk hp =>
+    simp only [rowCtx] at hp
+    simp only [hn, hk, hp, Bool.false_eq_true, if_false]
+  | stage hn hk hp =>
+    simp only [rowCtx] at hp
+    simp only [hn, hk, hp, Bool.false_eq_true, if_false]
+  | fault hn hr => simp only [hn, hr, Bool.not_false, if_true]
+  | panic hn hr hpol => simp only [hn, hr, hpol, Bool.not_true, Bool.false_eq_true, if_false]
+  | stdoutFail hn hr hpol hf => simp only [hn, hr, hpol, hf, Bool.not_true, Bool.false_eq_true, if_false, if_true]
+  | stderrFail hn hr hpol hf => simp only [hn, hr, hpol, hf, Bool.not_true, Bool.false_eq_true, if_false, if_true]
+
+/-- every configuration either steps or is final -/
+theorem iter_or_final (k : Conf) : (∃ b, Iter orc c p k b) ∨ (∃ res, Final orc c p k res) := by
+  rcases hn : k.r.nextJson with ⟨res, r'⟩
+  cases res with
+  | error e =>
+    cases hr : e.canRecover with
+    | false => exact .inr ⟨_, .fault hn hr⟩
+    | true =>
+      cases hpol : c.onError with
+      | ignore => exact .inl ⟨_, .ignore hn hr hpol⟩
+      | panic => exact .inr ⟨_, .panic hn hr hpol⟩
+      | stdout =>
+        cases hf : (k.s.out.put (reportBytes e)).failed with
+        | false => exact .inl ⟨_, .stdout hn hr hpol hf⟩
+        | true => exact .inr ⟨_, .stdoutFail hn hr hpol hf⟩
+      | stderr =>
+        cases hf : (k.s.err.put (reportBytes e)).failed with
+        | false => exact .inl ⟨_, .stderr hn hr hpol hf⟩
+        | true => exact .inr ⟨_, .stderrFail hn hr hpol hf⟩
+  | ok o =>
+    cases o with
+    | none => exact .inr ⟨_, .eof hn⟩
+    | some v =>
+      cases hk : (c.onlyObjectsAndArrays && !v.isObjOrArr) with
+      | true => exact .inl ⟨_, .skip hn hk⟩
+      | false =>
+        cases hp : process orc p.sink p.sinkLen p.cfgs k.s.sts k.s.out (rowCtx k.r r' v k.inFile k.s) with
+        | error f => exact .inr ⟨_, .stage hn hk hp⟩
+        | ok x =>
+          obtain ⟨ps, d⟩ := x
+          cases d with
+          | cont => exact .inl ⟨_, .row hn hk hp⟩
+          | brk => exact .inr ⟨_, .brk hn hk hp⟩
+
+theorem reachN_readLoop {n : Nat} {a b : Conf} (h : ReachN orc c p n a b) (fuel : Nat) :
+    readLoop orc c p (fuel + n) a.r a.inFile a.s = readLoop orc c p fuel b.r b.inFile b.s := by
+  induction h with
+  | refl k => rfl
+  | step hi _ ih => rw [← Nat.add_assoc, iter_readLoop orc c p hi, ih]
+
+theorem ReachN.snoc {n : Nat} {a b d : Conf} (h : ReachN orc c p n a b) (hi : Iter orc c p b d) :
+    ReachN orc c p (n + 1) a d := by
+  induction h with
+  | refl k => exact .step hi (.refl _)
+  | step hi' _ ih => exact .step hi' (ih hi)
+
+theorem Reach.refl (k : Conf) : Reach orc c p k k := ⟨0, .refl k⟩
+
+theorem Reach.trans {a b d : Conf} (h1 : Reach orc c p a b) (h2 : Reach orc c p b d) : Reach orc c p a d := by
+  obtain ⟨n, h1⟩ := h1
+  obtain ⟨m, h2⟩ := h2
+  induction h1 with
+  | refl k => exact ⟨m, h2⟩
+  | step hi _ ih =>
+    obtain ⟨l, hl⟩ := ih h2
+    exact ⟨l + 1, .step hi hl⟩
+
+/-- THE TRACE OF A LOOP: `readLoop` runs `n` iterations to a reachable configuration `k'` and ends there — with
+the final iteration described by `Final`, or (model only) because the fuel is used up -/
+theorem readLoop_trace (fuel : Nat) (k : Conf) :
+    ∃ n k', ReachN orc c p n k k' ∧
+      ((n < fuel ∧ Final orc c p k' (readLoop orc c p fuel k.r k.inFile k.s)) ∨
+       (n = fuel ∧ readLoop orc c p fuel k.r k.inFile k.s = .error ⟨.error (.json .outOfFuel), k'.s⟩)) := by
+  induction fuel generalizing k with
+  | zero => exact ⟨0, k, .refl k, .inr ⟨rfl, rfl⟩⟩
+  | succ fuel ih =>
+    rcases iter_or_final orc c p k with ⟨b, hb⟩ | ⟨res, hres⟩
+    · obtain ⟨n, k', hr, h⟩ := ih b
+      rw [iter_readLoop orc c p hb]
+      refine ⟨n + 1, k', .step hb hr, ?_⟩
+      rcases h with ⟨h1, h2⟩ | ⟨h1, h2⟩
+      · exact .inl ⟨by omega, h2⟩
+      · exact .inr ⟨by omega, h2⟩
+    · rw [final_readLoop orc c p hres]
+      exact ⟨0, k, .refl k, .inl ⟨by omega, hres⟩⟩
+
+end Trace
+
+section Fatal
+variable (orc : Oracles) (c : Cfg) (p : Pipeline)
+
+/-- what an iteration that is not the last one does: it is one `nextJson` call that did not fail with the I/O
+error; the `pulled` record is untouched and both logs only grow -/
+theorem Iter.props {a b : Conf} (h : Iter orc c p a b) :
+    b.r = a.r.nextJson.2 ∧ a.r.nextJson.1 ≠ .error .io ∧ b.s.pulled = a.s.pulled ∧
+      a.s.out.out <+: b.s.out.out ∧ a.s.err.out <+: b.s.err.out := by
+  cases h with
+  | skip hn hk =>
+    rw [hn]; exact ⟨rfl, (by intro h; cases h), rfl, List.prefix_refl _, List.prefix_refl _⟩
+  | row hn hk hp =>
+    rw [hn]
+    exact ⟨rfl, (by intro h; cases h), rfl, process_ext_ok hp, List.prefix_refl _⟩
+  | ignore hn hr hpol =>
+    rw [hn]; exact ⟨rfl, (by intro h; cases h; cases hr), rfl, List.prefix_refl _, List.prefix_refl _⟩
+  | stdout hn hr hpol hf =>
+    rw [hn]; exact ⟨rfl, (by intro h; cases h; cases hr), rfl, C16.put_prefix _ _, List.prefix_refl _⟩
+  | stderr hn hr hpol hf =>
+    rw [hn]; exact ⟨rfl, (by intro h; cases h; cases hr), rfl, List.prefix_refl _, C16.put_prefix _ _⟩
+
+/-- (C16) `out_monotone`, between reachable configurations: what was written stays written, on both logs -/
+theorem reachN_props {n : Nat} {a b : Conf} (h : ReachN orc c p n a b) :
+    Mono a.r b.r ∧ b.r.pulled + b.r.rest.length = a.r.pulled + a.r.rest.length ∧ b.s.pulled = a.s.pulled ∧
+      a.s.out.out <+: b.s.out.out ∧ a.s.err.out <+: b.s.err.out := by
+  induction h with
+  | refl k => exact ⟨Mono.refl _, rfl, rfl, List.prefix_refl _, List.prefix_refl _⟩
+  | step hi _ ih =>
+    obtain ⟨e, _, h1, h2, h3⟩ := Iter.props orc c p hi
+    obtain ⟨m, cnt, i1, i2, i3⟩ := ih
+    rw [e] at m cnt
+    exact ⟨(nextJson_mono _).trans m, cnt.trans ((nextValue_pcount _).count _), i1.trans h1, h2.trans i2,
+      h3.trans i3⟩
+
+theorem reach_out_monotone {a b : Conf} (h : Reach orc c p a b) :
+    a.s.out.out <+: b.s.out.out ∧ a.s.err.out <+: b.s.err.out := by
+  obtain ⟨n, h⟩ := h
+  exact (reachN_props orc c p h).2.2.2
+
+/-- a pending read fault stays pending along iterations that are not the last one -/
+theorem reachN_fault {n : Nat} {a b : Conf} (h : ReachN orc c p n a b) (post : List RItem)
+    (hs : (RItem.err :: post) <:+ a.r.rest) : (RItem.err :: post) <:+ b.r.rest := by
+  induction h with
+  | refl k => exact hs
+  | step hi _ ih =>
+    obtain ⟨e, hne, _⟩ := Iter.props orc c p hi
+    rcases nextJson_fault _ post hs with h | ⟨h, _⟩
+    · exact ih (by rw [e]; exact h)
+    · exact absurd h hne
+
+/-- the state in which a loop ends -/
+def endSt : Except RunEnd (RunState × Reader × Decision) → RunState
+  | .ok (s', _, _) => s'
+  | .error e => e.st
+
+theorem final_out_monotone {k : Conf} {res : Except RunEnd (RunState × Reader × Decision)}
+    (h : Final orc c p k res) : k.s.out.out <+: (endSt res).out.out ∧ k.s.err.out <+: (endSt res).err.out := by
+  cases h with
+  | eof hn => exact ⟨List.prefix_refl _, List.prefix_refl _⟩
+  | brk hn hk hp => exact ⟨process_ext_ok hp, List.prefix_refl _⟩
+  | stage hn hk hp => exact ⟨process_ext_error hp, List.prefix_refl _⟩
+  | fault hn hr => exact ⟨List.prefix_refl _, List.prefix_refl _⟩
+  | panic hn hr hpol => exact ⟨List.prefix_refl _, List.prefix_refl _⟩
+  | stdoutFail hn hr hpol hf => exact ⟨C16.put_prefix _ _, List.prefix_refl _⟩
+  | stderrFail hn hr hpol hf => exact ⟨List.prefix_refl _, C16.put_prefix _ _⟩
+
+/-- (C16) `out_monotone`: however the loop ends — normally, with an error return, with an abort — stdout and stderr
+at the end extend stdout and stderr at the start (bounded or unbounded writers alike) -/
+theorem out_monotone (fuel : Nat) (r : Reader) (inFile : Nat) (s : RunState) :
+    s.out.out <+: (endSt (readLoop orc c p fuel r inFile s)).out.out ∧
+    s.err.out <+: (endSt (readLoop orc c p fuel r inFile s)).err.out := by
+  obtain ⟨n, k', hr, h⟩ := readLoop_trace orc c p fuel ⟨r, inFile, s⟩
+  obtain ⟨_, _, _, h1, h2⟩ := reachN_props orc c p hr
+  rcases h with ⟨_, h⟩ | ⟨_, h⟩
+  · obtain ⟨f1, f2⟩ := final_out_monotone orc c p h
+    exact ⟨h1.trans f1, h2.trans f2⟩
+  · dsimp only at h
+    rw [h]
+    exact ⟨h1, h2⟩
+
+/-- the trace of a loop over a source with a pending read fault (`read_error_is_fatal_run` below, with the
+number of iterations exposed) -/
+theorem fault_trace (fuel : Nat) (k : Conf) (post : List RItem)
+    (hs : (RItem.err :: post) <:+ k.r.rest) :
+    ∃ n k', ReachN orc c p n k k' ∧ (RItem.err :: post) <:+ k'.r.rest ∧
+      k.s.out.out <+: k'.s.out.out ∧ k.s.err.out <+: k'.s.err.out ∧
+      ((n < fuel ∧ k'.r.nextJson.1 = .error .io ∧ k'.r.nextJson.2.rest = post ∧
+          readLoop orc c p fuel k.r k.inFile k.s = .error ⟨.error .io,
+            { k'.s with pulled := k.s.pulled ++ [k.r.pulled + (k.r.rest.length - post.length)] }⟩) ∨
+       (∃ s' r' d, readLoop orc c p fuel k.r k.inFile k.s = .ok (s', r', d) ∧ (RItem.err :: post) <:+ r'.rest) ∨
+       (∃ e, readLoop orc c p fuel k.r k.inFile k.s = .error e ∧
+          (e.st.pulled = k.s.pulled ∨
+           ∃ n, e.st.pulled = k.s.pulled ++ [n] ∧ n < k.r.pulled + (k.r.rest.length - post.length)))) := by
+  obtain ⟨n, k', hr, h⟩ := readLoop_trace orc c p fuel k
+  obtain ⟨hm, hcnt, hpl, h1, h2⟩ := reachN_props orc c p hr
+  have hs' := reachN_fault orc c p hr post hs
+  refine ⟨n, k', hr, hs', h1, h2, ?_⟩
+  have hlen := hs.length_le
+  simp only [List.length_cons] at hlen
+  -- the `pulled` count of a reader `r'` reached from `k'.r` in which the fault is still pending
+  have hpend : ∀ r' : Reader, r'.pulled + r'.rest.length = k'.r.pulled + k'.r.rest.length →
+      (RItem.err :: post) <:+ r'.rest → r'.pulled < k.r.pulled + (k.r.rest.length - post.length) := by
+    intro r' hc hsuf
+    have := hsuf.length_le
+    simp only [List.length_cons] at this
+    omega
+  have hcj : k'.r.nextJson.2.pulled + k'.r.nextJson.2.rest.length = k'.r.pulled + k'.r.rest.length :=
+    (nextValue_pcount (4 * k'.r.rest.length + 10)).count k'.r
+  rcases h with ⟨hnf, h⟩ | ⟨_, h⟩
+  · rcases nextJson_fault k'.r post hs' with hf | ⟨hf1, hf2⟩
+    · -- the fault is still pending after the last `nextJson`
+      right
+      generalize readLoop orc c p fuel k.r k.inFile k.s = res at h
+      cases h with
+      | eof hn => rw [hn] at hf; exact .inl ⟨_, _, _, rfl, hf⟩
+      | brk hn hk hp => rw [hn] at hf; exact .inl ⟨_, _, _, rfl, hf⟩
+      | stage hn hk hp =>
+        rw [hn] at hf hcj
+        exact .inr ⟨_, rfl, .inr ⟨_, by rw [hpl], hpend _ hcj hf⟩⟩
+      | fault hn hr =>
+        rw [hn] at hf hcj
+        exact .inr ⟨_, rfl, .inr ⟨_, by rw [hpl], hpend _ hcj hf⟩⟩
+      | panic hn hr hpol =>
+        rw [hn] at hf hcj
+        exact .inr ⟨_, rfl, .inr ⟨_, by rw [hpl], hpend _ hcj hf⟩⟩
+      | stdoutFail hn hr hpol hfl =>
+        rw [hn] at hf hcj
+        exact .inr ⟨_, rfl, .inr ⟨_, by rw [hpl], hpend _ hcj hf⟩⟩
+      | stderrFail hn hr hpol hfl =>
+        rw [hn] at hf hcj
+        exact .inr ⟨_, rfl, .inr ⟨_, by rw [hpl], hpend _ hcj hf⟩⟩
+    · -- the last `nextJson` pulled the fault
+      left
+      refine ⟨hnf, hf1, hf2, ?_⟩
+      rcases hn : k'.r.nextJson with ⟨res, r'⟩
+      rw [hn] at hf1 hf2
+      dsimp only at hf1 hf2
+      subst hf1
+      have hfin : Final orc c p k' _ := Final.fault hn rfl
+      have e1 := final_readLoop orc c p hfin 0
+      have e2 := final_readLoop orc c p h 0
+      rw [e1] at e2
+      rw [← e2]
+      rw [hn] at hcj
+      dsimp only at hcj
+      rw [hf2] at hcj
+      have : r'.pulled = k.r.pulled + (k.r.rest.length - post.length) := by omega
+      rw [this, hpl]
+  · right; right
+    exact ⟨_, h, .inl (by rw [hpl])⟩
+
+/-- (C16) `read_error_is_fatal_run`.  A read fault (`RItem.err`) is pending in the source, `post` being what follows
+it.  The loop runs through reachable configurations to some `k'` — the fault still pending there, the logs only
+grown — and then exactly one of three things happens:
+
+* (fatal) the `nextJson` call at `k'` pulls the fault: the loop returns the I/O error UNDER EVERY `--on-error`
+  POLICY (nothing here mentions the policy), the state returned is `k'.s` itself — no report line is written for
+  the fault, rows already written stay written — and the `pulled` record says the fault was the last item pulled;
+* the loop ended normally before pulling the fault (it is still pending in the final reader);
+* the loop ended with an error before pulling the fault (its `pulled` record, if any, is smaller). -/
+theorem read_error_is_fatal_run (fuel : Nat) (k : Conf) (post : List RItem)
+    (hs : (RItem.err :: post) <:+ k.r.rest) :
+    ∃ k', Reach orc c p k k' ∧ (RItem.err :: post) <:+ k'.r.rest ∧
+      k.s.out.out <+: k'.s.out.out ∧ k.s.err.out <+: k'.s.err.out ∧
+      ((k'.r.nextJson.1 = .error .io ∧ k'.r.nextJson.2.rest = post ∧
+          readLoop orc c p fuel k.r k.inFile k.s = .error ⟨.error .io,
+            { k'.s with pulled := k.s.pulled ++ [k.r.pulled + (k.r.rest.length - post.length)] }⟩) ∨
+       (∃ s' r' d, readLoop orc c p fuel k.r k.inFile k.s = .ok (s', r', d) ∧ (RItem.err :: post) <:+ r'.rest) ∨
+       (∃ e, readLoop orc c p fuel k.r k.inFile k.s = .error e ∧
+          (e.st.pulled = k.s.pulled ∨
+           ∃ n, e.st.pulled = k.s.pulled ++ [n] ∧ n < k.r.pulled + (k.r.rest.length - post.length)))) := by
+  obtain ⟨n, k', hr, h1, h2, h3, h4⟩ := fault_trace orc c p fuel k post hs
+  refine ⟨k', ⟨n, hr⟩, h1, h2, h3, ?_⟩
+  rcases h4 with ⟨_, h4⟩ | h4 | h4
+  · exact .inl h4
+  · exact .inr (.inl h4)
+  · exact .inr (.inr h4)
+
+/-- "if the loop reaches it": when the `pulled` record of the run's end shows that the fault was pulled, the end is
+the I/O error and the state is a reachable state of the loop (so its logs extend the initial ones and contain no
+report for the fault) -/
+theorem read_error_reached_is_fatal (fuel : Nat) (k : Conf) (post : List RItem)
+    (hs : (RItem.err :: post) <:+ k.r.rest) (e : RunEnd)
+    (h : readLoop orc c p fuel k.r k.inFile k.s = .error e)
+    (hp : e.st.pulled = k.s.pulled ++ [k.r.pulled + (k.r.rest.length - post.length)]) :
+    e.result = .error .io ∧ ∃ k', Reach orc c p k k' ∧ e.st.out = k'.s.out ∧ e.st.err = k'.s.err ∧
+      e.st.sts = k'.s.sts ∧ k.s.out.out <+: e.st.out.out ∧ k.s.err.out <+: e.st.err.out := by
+  obtain ⟨k', hr, _, h1, h2, h3 | ⟨_, _, _, h3, _⟩ | ⟨e', h3, h4⟩⟩ := read_error_is_fatal_run orc c p fuel k post hs
+  · rw [h3.2.2] at h
+    cases h
+    exact ⟨rfl, k', hr, rfl, rfl, rfl, h1, h2⟩
+  · rw [h3] at h; cases h
+  · rw [h3] at h
+    cases h
+    rcases h4 with h4 | ⟨n, h4, hn⟩
+    · rw [h4] at hp
+      have := congrArg List.length hp
+      simp at this
+    · rw [h4] at hp
+      have := List.append_cancel_left hp
+      simp only [List.cons.injEq, and_true] at this
+      omega
+
+end Fatal
+
+/-! #### Run level: the logs of a whole run extend the writers it was given -/
+
+section RunLevel
+variable (orc : Oracles) (c : Cfg) (p : Pipeline)
+
+def endStS : Except RunEnd RunState → RunState
+  | .ok s' => s'
+  | .error e => e.st
+
+theorem readSources_out_monotone (srcs : List Source) (s : RunState) :
+    s.out.out <+: (endStS (readSources orc c p srcs s)).out.out ∧
+    s.err.out <+: (endStS (readSources orc c p srcs s)).err.out := by
+  induction srcs generalizing s with
+  | nil => exact ⟨List.prefix_refl _, List.prefix_refl _⟩
+  | cons src rest ih =>
+    have hm := out_monotone orc c p (src.items.length + 2) (Reader.ofItems src.items src.name) 0 s
+    unfold readSources
+    dsimp only
+    split
+    · rename_i e heq
+      rw [heq] at hm; exact hm
+    · rename_i s' r' d heq
+      rw [heq] at hm
+      split
+      · exact hm
+      · have := ih { s' with pulled := s'.pulled ++ [r'.pulled] }
+        exact ⟨hm.1.trans this.1, hm.2.trans this.2⟩
+
+/-- (C16) whatever happens, what a run leaves on stdout / stderr extends what was there: nothing written is ever
+lost or rewritten -/
+theorem run_out_monotone (sources : List Source) (wOut wErr : Writer) :
+    wOut.out <+: (run orc c sources wOut wErr).stdout ∧ wErr.out <+: (run orc c sources wOut wErr).stderr := by
+  unfold run
+  split
+  · exact ⟨List.prefix_refl _, List.prefix_refl _⟩
+  · rename_i p hb
+    have h0 := sinkStart_ext p.sink p.titles wOut
+    split
+    · rename_i f hf
+      rw [hf] at h0
+      exact ⟨h0, List.prefix_refl _⟩
+    · rename_i w0 hw0
+      rw [hw0] at h0
+      have h1 := readSources_out_monotone orc c p sources { sts := p.sts, out := w0, err := wErr }
+      dsimp only
+      split
+      · rename_i e he
+        rw [he] at h1
+        exact ⟨h0.trans h1.1, h1.2⟩
+      · rename_i s hs
+        rw [hs] at h1
+        have h2 := complete_ext orc p.sink p.sinkLen p.cfgs s.sts s.out
+        split
+        · rename_i f hf
+          rw [hf] at h2
+          exact ⟨(h0.trans h1.1).trans h2, h1.2⟩
+        · rename_i w hw
+          rw [hw] at h2
+          exact ⟨(h0.trans h1.1).trans h2, h1.2⟩
+
+end RunLevel
+
+/-! Non-vacuity: `[1] [2` then a read fault, under every policy -/
+
+def plain : Pipeline := { cfgs := [], sts := [], sink := .json {} ['\n'], sinkLen := 0, titles := [] }
+
+theorem build_plain (orc : Oracles) (pol : OnError) : build orc { onError := pol } = .ok plain := rfl
+
+def faulty : List RItem := cleanInput [91, 49, 93, 32, 91, 50] ++ [RItem.err, RItem.byte 93]
+
+example : (RItem.err :: [RItem.byte 93]) <:+ (Reader.ofItems faulty none).rest := ⟨cleanInput [91, 49, 93, 32, 91, 50], rfl⟩
+
+/-- the row `[1]` is written, then the fault ends the run with the I/O error — no report, whatever the policy; the
+fault (item 7) is the last item pulled, the byte after it is never requested -/
+example (orc : Oracles) (pol : OnError) :
+    ∃ st, readLoop orc { onError := pol } plain 10 (Reader.ofItems faulty none) 0 { sts := [], out := {}, err := {} }
+        = .error ⟨.error .io, st⟩ ∧ st.out.out = [91, 49, 93, 10] ∧ st.err.out = [] ∧ st.pulled = [7] := by
+  cases pol <;> exact ⟨_, rfl, rfl, rfl, rfl⟩
+
+/-! ### 4. (C17) positions are exact -/
+
+/-- the bytes among a list of items (a read fault carries no byte and does not move the position) -/
+def itemBytes (l : List RItem) : List Byte :=
+  l.filterMap (fun it => match it with | .byte b => some b | .err => none)
+
+theorem itemBytes_append (a b : List RItem) : itemBytes (a ++ b) = itemBytes a ++ itemBytes b := by
+  simp [itemBytes, List.filterMap_append]
+
+theorem itemBytes_cleanInput (bs : List Byte) : itemBytes (cleanInput bs) = bs := by
+  induction bs with
+  | nil => rfl
+  | cons b bs ih =>
+    simp only [cleanInput, List.map_cons] at ih ⊢
+    simp only [itemBytes, List.filterMap_cons] at ih ⊢
+    rw [ih]
+
+/-- the reader `r` works on the stream `items` of a source called `name`: `done` has been pulled, the rest is
+unread, and the location is the line / column computed from the bytes pulled -/
+def LocInv (items : List RItem) (name : Option Str) (r : Reader) : Prop :=
+  ∃ done, items = done ++ r.rest ∧ done.length = r.pulled ∧ r.loc.name = name ∧
+    C17.Tracks r (itemBytes done)
+
+theorem locInv_ofItems (items : List RItem) (name : Option Str) : LocInv items name (Reader.ofItems items name) :=
+  ⟨[], rfl, rfl, rfl, rfl⟩
+
+structure PLocInv {α} (m : PM α) : Prop where
+  inv : ∀ items name r, LocInv items name r → LocInv items name (m r).2
+
+theorem plocinv_pure {α} (a : α) : PLocInv (pure a : PM α) := ⟨fun _ _ _ h => h⟩
+theorem plocinv_fail {α} (e : PErr) : PLocInv (PM.fail e : PM α) := ⟨fun _ _ _ h => h⟩
+theorem plocinv_locErr {α} (mk : Loc → PErr) : PLocInv (locErr mk : PM α) := ⟨fun _ _ _ h => h⟩
+
+theorem plocinv_bind {α β} {m : PM α} {f : α → PM β} (hm : PLocInv m) (hf : ∀ a, PLocInv (f a)) :
+    PLocInv (m >>= f) := by
+  constructor
+  intro items name r h
+  have h1 := hm.inv items name r h
+  simp only [PM.bind_apply]
+  cases hr : m r with
+  | mk res r1 =>
+    rw [hr] at h1
+    cases res with
+    | error e => exact h1
+    | ok a => exact (hf a).inv items name r1 h1
+
+theorem next_plocinv : PLocInv Reader.next := by
+  constructor
+  intro items name r h
+  obtain ⟨done, h1, h2, h3, h4⟩ := h
+  rcases hn : Reader.next r with ⟨res, r'⟩
+  have hname := C17.next_keeps_name r r' res hn
+  cases res with
+  | error e =>
+    -- a fault: one item pulled, no byte, the location does not move
+    cases r with
+    | mk rest cur eof loc pulled =>
+      cases eof with
+      | true => simp [Reader.next] at hn
+      | false =>
+        cases rest with
+        | nil => simp [Reader.next] at hn
+        | cons it rest =>
+          cases it with
+          | byte b => simp [Reader.next] at hn
+          | err =>
+            simp only [Reader.next, Bool.false_eq_true, if_false, Prod.mk.injEq] at hn
+            obtain ⟨_, rfl⟩ := hn
+            refine ⟨done ++ [RItem.err], by simp [h1], by simp [h2], h3, ?_⟩
+            rw [itemBytes_append]
+            have : itemBytes [RItem.err] = [] := rfl
+            rw [this, List.append_nil]
+            exact h4
+  | ok o =>
+    cases o with
+    | some b =>
+      obtain ⟨hp, hr⟩ := C17.next_pulled r r' b hn
+      refine ⟨done ++ [RItem.byte b], by rw [h1, hr]; simp, by simp [h2, hp], hname.trans h3, ?_⟩
+      rw [itemBytes_append]
+      exact C17.next_tracks r r' b _ h4 hn
+    | none =>
+      cases r with
+      | mk rest cur eof loc pulled =>
+        cases eof with
+        | true =>
+          simp only [Reader.next, if_true, Prod.mk.injEq] at hn
+          obtain ⟨_, rfl⟩ := hn
+          exact ⟨done, h1, h2, h3, h4⟩
+        | false =>
+          cases rest with
+          | nil =>
+            simp only [Reader.next, Bool.false_eq_true, if_false, Prod.mk.injEq] at hn
+            obtain ⟨_, rfl⟩ := hn
+            exact ⟨done, h1, h2, h3, h4⟩
+          | cons it rest => cases it <;> simp [Reader.next] at hn
+
+theorem peek_plocinv : PLocInv Reader.peek := by
+  constructor
+  intro items name r h
+  unfold Reader.peek
+  split
+  · exact h
+  · exact next_plocinv.inv items name r h
+
+macro "plocinv_step" : tactic => `(tactic| first
+  | with_reducible exact plocinv_pure _
+  | with_reducible exact plocinv_fail _
+  | with_reducible exact plocinv_locErr _
+  | with_reducible exact next_plocinv
+  | with_reducible exact peek_plocinv
+  | with_reducible assumption
+  | with_reducible apply plocinv_bind
+  | intro _
+  | split)
+
+syntax "plocinv" ("[" term,* "]")? : tactic
+macro_rules
+  | `(tactic| plocinv) => `(tactic| repeat' plocinv_step)
+  | `(tactic| plocinv [$ts,*]) =>
+    `(tactic| repeat' (first | plocinv_step $[| with_reducible exact $ts]*))
+
+theorem eatWhitespace_plocinv (fuel : Nat) : PLocInv (eatWhitespace fuel) := by
+  induction fuel with
+  | zero => exact plocinv_fail _
+  | succ fuel ih => unfold eatWhitespace; plocinv
+
+theorem readDigits_plocinv (fuel : Nat) (acc : List Byte) : PLocInv (readDigits fuel acc) := by
+  induction fuel generalizing acc with
+  | zero => exact plocinv_fail _
+  | succ fuel ih => unfold readDigits; plocinv [ih _]
+
+theorem readWordTail_plocinv (word : String) (es : List Byte) : PLocInv (readWordTail word es) := by
+  induction es with
+  | nil => unfold readWordTail; plocinv
+  | cons e es ih => unfold readWordTail; plocinv
+
+theorem readHex4_plocinv (k acc : Nat) : PLocInv (readHex4 k acc) := by
+  induction k generalizing acc with
+  | zero => exact plocinv_pure _
+  | succ k ih => unfold readHex4; plocinv [ih _]
+
+theorem readStringLoop_plocinv (fuel : Nat) (acc : List Byte) : PLocInv (readStringLoop fuel acc) := by
+  induction fuel generalizing acc with
+  | zero => exact plocinv_fail _
+  | succ fuel ih => unfold readStringLoop; plocinv [ih _, readHex4_plocinv _ _]
+
+theorem parseToDouble_plocinv (t : List Byte) : PLocInv (parseToDouble t) := by
+  unfold parseToDouble; plocinv
+
+theorem readNumber_plocinv (fuel : Nat) : PLocInv (readNumber fuel) := by
+  unfold readNumber
+  plocinv [readDigits_plocinv _ _, parseToDouble_plocinv _]
+
+structure ValueLocInv (fuel : Nat) : Prop where
+  value : PLocInv (nextValue fuel)
+  array : PLocInv (readArray fuel)
+  arrayLoop : ∀ acc, PLocInv (readArrayLoop fuel acc)
+  object : PLocInv (readObject fuel)
+  objectLoop : ∀ acc, PLocInv (readObjectLoop fuel acc)
+
+theorem valueLocInv (fuel : Nat) : ValueLocInv fuel := by
+  induction fuel with
+  | zero =>
+    refine ⟨?_, ?_, fun _ => ?_, ?_, fun _ => ?_⟩
+    · unfold nextValue; exact plocinv_fail _
+    · unfold readArray; exact plocinv_fail _
+    · unfold readArrayLoop; exact plocinv_fail _
+    · unfold readObject; exact plocinv_fail _
+    · unfold readObjectLoop; exact plocinv_fail _
+  | succ fuel ih =>
+    refine ⟨?_, ?_, fun _ => ?_, ?_, fun _ => ?_⟩
+    · unfold nextValue
+      plocinv [eatWhitespace_plocinv _, readWordTail_plocinv _ _, readStringLoop_plocinv _ _,
+        readNumber_plocinv _, ih.array, ih.object]
+    · unfold readArray
+      plocinv [eatWhitespace_plocinv _, ih.arrayLoop _]
+    · unfold readArrayLoop
+      plocinv [eatWhitespace_plocinv _, ih.arrayLoop _, ih.value]
+    · unfold readObject
+      plocinv [eatWhitespace_plocinv _, ih.objectLoop _]
+    · unfold readObjectLoop
+      plocinv [eatWhitespace_plocinv _, ih.objectLoop _, ih.value]
+
+theorem nextJson_locInv {items : List RItem} {name : Option Str} {r : Reader} (h : LocInv items name r) :
+    LocInv items name r.nextJson.2 := (valueLocInv _).value.inv items name r h
+
+/-- line = 1 + number of LF; column = 1 + number of bytes after the last LF -/
+theorem lineCol_reverse (l : List Byte) :
+    C17.lineCol l.reverse = (1 + l.count 10, 1 + (l.takeWhile (· ≠ 10)).length) := by
+  induction l with
+  | nil => rfl
+  | cons x l ih =>
+    rw [List.reverse_cons]
+    unfold C17.lineCol at ih ⊢
+    rw [List.foldl_append, ih]
+    simp only [List.foldl_cons, List.foldl_nil, C17.lineColStep]
+    by_cases hx : x = 10
+    · subst hx
+      simp
+      omega
+    · have hx' : (x == 10) = false := by simpa using hx
+      simp [hx]
+      omega
+
+theorem lineCol_closed (bs : List Byte) :
+    C17.lineCol bs = (1 + bs.count 10, 1 + (bs.reverse.takeWhile (· ≠ 10)).length) := by
+  have := lineCol_reverse bs.reverse
+  rw [List.reverse_reverse] at this
+  rw [this, List.count_reverse]
+
+/-- (C17) `location_is_lineCol`: a reader on the stream `items` that has pulled `n` items stands at line
+`1 + (number of LF among the bytes pulled)`, column `1 + (number of bytes pulled after the last LF)`; its name is
+the source's name; what is unread is `items` minus the first `n` items. -/
+theorem location_is_lineCol {items : List RItem} {name : Option Str} {r : Reader} (h : LocInv items name r) :
+    r.rest = items.drop r.pulled ∧ r.pulled ≤ items.length ∧ r.loc.name = name ∧
+    r.loc.line = 1 + (itemBytes (items.take r.pulled)).count 10 ∧
+    r.loc.col = 1 + ((itemBytes (items.take r.pulled)).reverse.takeWhile (· ≠ 10)).length := by
+  obtain ⟨done, h1, h2, h3, h4⟩ := h
+  have ht : items.take r.pulled = done := by rw [h1, ← h2]; simp
+  have hd : items.drop r.pulled = r.rest := by rw [h1, ← h2]; simp
+  rw [ht, hd]
+  unfold C17.Tracks at h4
+  rw [lineCol_closed] at h4
+  simp only [Prod.mk.injEq] at h4
+  refine ⟨rfl, ?_, h3, h4.1, h4.2⟩
+  rw [h1, ← h2]; simp
+
+/-- the form of the task: after pulling exactly the bytes `bs` of a clean input -/
+theorem location_after_bytes {bs tail : List Byte} {name : Option Str} {r : Reader}
+    (h : LocInv (cleanInput (bs ++ tail)) name r) (hp : r.pulled = bs.length) :
+    r.loc.line = 1 + bs.count 10 ∧ r.loc.col = 1 + (bs.reverse.takeWhile (· ≠ 10)).length ∧
+    r.rest = cleanInput tail := by
+  obtain ⟨h1, _, _, h4, h5⟩ := location_is_lineCol h
+  have ht : (cleanInput (bs ++ tail)).take r.pulled = cleanInput bs := by
+    rw [hp]; simp [cleanInput, List.map_append]
+  have hd : (cleanInput (bs ++ tail)).drop r.pulled = cleanInput tail := by
+    rw [hp]; simp [cleanInput, List.map_append]
+  rw [ht, itemBytes_cleanInput] at h4 h5
+  exact ⟨h4, h5, by rw [h1, hd]⟩
+
+/-! #### Ranges tile -/
+
+/-- every call of `nextJson` made by `ctxsOf` yields a row (no malformed region skipped, no scalar dropped by
+`--only-objects-and-arrays`), until the input ends or a read fault stops the loop — as a computable test -/
+def allRowsB (c : Cfg) : Nat → Reader → Bool
+  | 0, _ => true
+  | fuel + 1, r =>
+    match r.nextJson with
+    | (.ok (some v), r') => !(c.onlyObjectsAndArrays && !v.isObjOrArr) && allRowsB c fuel r'
+    | (.ok none, _) => true
+    | (.error e, _) => !e.canRecover
+
+def AllRows (c : Cfg) (fuel : Nat) (r : Reader) : Prop := allRowsB c fuel r = true
+
+instance (c : Cfg) (fuel : Nat) (r : Reader) : Decidable (AllRows c fuel r) := by
+  unfold AllRows; infer_instance
+
+/-- the rows' ranges tile, starting at `l`: each row starts where the previous one ended -/
+def TilesFrom : Loc → List Ctx → Prop
+  | _, [] => True
+  | l, ctx :: rest => ∃ ic, ctx.ictx = some ic ∧ ic.startLoc = l ∧ TilesFrom ic.endLoc rest
+
+/-- (C17) `ranges_tile`: when no recoverable error and no dropped scalar lies between them, consecutive rows have
+`ended k = started (k + 1)`, and the first row starts at the reader's location (`1:1` for a fresh reader) -/
+theorem ranges_tile (c : Cfg) (fuel : Nat) (r : Reader) (inFile idx : Nat) (h : AllRows c fuel r) :
+    TilesFrom r.loc (RunSpec.ctxsOf c fuel r inFile idx) := by
+  induction fuel generalizing r inFile idx with
+  | zero => exact True.intro
+  | succ fuel ih =>
+    unfold AllRows allRowsB at h
+    unfold RunSpec.ctxsOf
+    rcases hn : r.nextJson with ⟨res, r'⟩
+    rw [hn] at h
+    cases res with
+    | error e =>
+      dsimp only at h ⊢
+      have : e.canRecover = false := by simpa using h
+      rw [this]
+      exact True.intro
+    | ok o =>
+      cases o with
+      | none => exact True.intro
+      | some v =>
+        dsimp only at h ⊢
+        rw [Bool.and_eq_true, Bool.not_eq_true'] at h
+        rw [h.1]
+        exact ⟨_, rfl, rfl, ih r' _ _ h.2⟩
+
+theorem tilesFrom_get {l : Loc} {cs : List Ctx} (h : TilesFrom l cs) (k : Nat) (hk : k + 1 < cs.length) :
+    ∃ a b, cs[k].ictx = some a ∧ cs[k + 1].ictx = some b ∧ a.endLoc = b.startLoc := by
+  induction cs generalizing l k with
+  | nil => simp at hk
+  | cons x xs ih =>
+    obtain ⟨ic, h1, h2, h3⟩ := h
+    cases k with
+    | zero =>
+      cases xs with
+      | nil => simp at hk
+      | cons y ys =>
+        obtain ⟨ic', h1', h2', _⟩ := h3
+        exact ⟨ic, ic', h1, h1', h2'.symm⟩
+    | succ k => exact ih h3 k (by simpa using hk)
+
+theorem tilesFrom_head {l : Loc} {cs : List Ctx} (h : TilesFrom l cs) (hk : 0 < cs.length) :
+    ∃ a, cs[0].ictx = some a ∧ a.startLoc = l := by
+  cases cs with
+  | nil => simp at hk
+  | cons x xs =>
+    obtain ⟨ic, h1, h2, _⟩ := h
+    exact ⟨ic, h1, h2⟩
+
+/-- in index form, over a whole source: `ended k = started (k+1)` and `started 0 = name:1:1` -/
+theorem ranges_tile_source (c : Cfg) (src : Source) (idx : Nat)
+    (h : AllRows c (src.items.length + 2) (Reader.ofItems src.items src.name)) :
+    let cs := RunSpec.ctxsOf c (src.items.length + 2) (Reader.ofItems src.items src.name) 0 idx
+    (∀ k (hk : k + 1 < cs.length), ∃ a b, cs[k].ictx = some a ∧ cs[k + 1].ictx = some b ∧ a.endLoc = b.startLoc) ∧
+    (∀ hk : 0 < cs.length, ∃ a, cs[0].ictx = some a ∧ a.startLoc = { name := src.name, line := 1, col := 1 }) := by
+  intro cs
+  have ht := ranges_tile c _ _ 0 idx h
+  exact ⟨fun k hk => tilesFrom_get ht k hk, fun hk => tilesFrom_head ht hk⟩
+
+/-! #### What lies between `started` and `ended` (finding F11) -/
+
+/-- the look-ahead byte as an item list -/
+def curItems (r : Reader) : List RItem := match r.cur with | some b => [RItem.byte b] | none => []
+
+theorem pending_eq (r : Reader) : r.pending = curItems r ++ r.rest := rfl
+
+/-- `range_contains_text`, the precise general statement.  A successful `nextJson` consumes a prefix `consumed` of
+the pending stream (leading white space and the value's text).  The items it PULLS — the bytes that lie between
+`started` and `ended`, by `location_is_lineCol` — are not `consumed` in general:
+`(look-ahead held at entry) ++ pulled = consumed ++ (look-ahead held at exit)`.
+So when a look-ahead byte is held at entry (it was pulled, and counted, by the PREVIOUS call) the range of this
+value misses the first byte of `consumed`; and it always includes the one byte after the value. -/
+theorem range_contains_text_general (r : Reader) {x : Option JV} {r' : Reader} (h : r.nextJson = (.ok x, r')) :
+    ∃ consumed, r.pending = consumed ++ r'.pending ∧
+      curItems r ++ r.rest.take (r'.pulled - r.pulled) = consumed ++ curItems r' := by
+  have hdrop := nextJson_rest_eq_drop r
+  have hcnt := (nextValue_pcount (4 * r.rest.length + 10)).count r
+  change r.nextJson.2.pulled + r.nextJson.2.rest.length = _ at hcnt
+  rw [h] at hdrop hcnt
+  dsimp only at hdrop hcnt
+  obtain ⟨hsuf, hl | hl⟩ := nextJson_lookahead r h
+  · obtain ⟨hp, hr, hc | hc⟩ := hl
+    · refine ⟨[], ?_, ?_⟩
+      · simp [Reader.pending, hr, hc]
+      · have e : curItems r' = curItems r := by simp [curItems, hc]
+        rw [e, hp, Nat.sub_self, List.take_zero, List.append_nil, List.nil_append]
+    · refine ⟨curItems r, ?_, ?_⟩
+      · have e : curItems r' = [] := by simp [curItems, hc]
+        rw [pending_eq, pending_eq r', e, hr, List.nil_append]
+      · have e : curItems r' = [] := by simp [curItems, hc]
+        rw [e, hp, Nat.sub_self, List.take_zero]
+  · obtain ⟨hp, hl⟩ := hl
+    cases hc : r'.cur with
+    | none =>
+      refine ⟨curItems r ++ r.rest.take (r'.pulled - r.pulled), ?_, by simp [curItems, hc]⟩
+      rw [pending_eq, pending_eq r', List.append_assoc]
+      simp only [curItems, hc, List.nil_append]
+      rw [hdrop, List.take_append_drop]
+    | some b =>
+      obtain ⟨pre, hpre⟩ := hl b hc
+      have hlen : r'.pulled - r.pulled = pre.length + 1 := by
+        have := congrArg List.length hpre
+        simp at this
+        omega
+      refine ⟨curItems r ++ pre, ?_, ?_⟩
+      · rw [pending_eq, pending_eq r', List.append_assoc]
+        simp only [curItems, hc]
+        rw [hpre]; simp
+      · have e : curItems r' = [RItem.byte b] := by simp [curItems, hc]
+        have e2 : pre ++ RItem.byte b :: r'.rest = (pre ++ [RItem.byte b]) ++ r'.rest := by simp
+        rw [e, hlen, hpre, e2, List.take_left' (by simp), List.append_assoc]
+
+/-- (C17) `range_contains_text`, the clean case: no look-ahead byte is held at entry (the first value of a source,
+or a value after one that ended at the end of input).  Then the items pulled between `started` and `ended` are
+exactly what the call consumed — leading white space and the whole text of the value — followed by the single
+look-ahead byte, if one is held at exit. -/
+theorem range_contains_text (r : Reader) (hc : r.cur = none) {x : Option JV} {r' : Reader}
+    (h : r.nextJson = (.ok x, r')) :
+    ∃ consumed, r.rest = consumed ++ r'.pending ∧
+      r.rest.take (r'.pulled - r.pulled) = consumed ++ curItems r' := by
+  obtain ⟨consumed, h1, h2⟩ := range_contains_text_general r h
+  have : curItems r = [] := by simp [curItems, hc]
+  rw [pending_eq, this, List.nil_append] at h1
+  rw [this, List.nil_append] at h2
+  exact ⟨consumed, h1, h2⟩
+
+/-- F11, concretely: in `[1][2]` the second value starts at column 4, but its range starts at `1:5`, because `[`
+was pulled as the look-ahead of the first call; in `[1] [2]` the blank is the look-ahead and both ranges are
+exact up to that blank. -/
+example : (RunSpec.ctxsOf {} 8 (Reader.ofBytes [91, 49, 93, 91, 50, 93]) 0 0).map (fun c => c.ictx.map (fun i =>
+    ((i.startLoc.line, i.startLoc.col), (i.endLoc.line, i.endLoc.col))))
+    = [some ((1, 1), (1, 5)), some ((1, 5), (1, 7))] := by decide +kernel
+
+example : (RunSpec.ctxsOf {} 9 (Reader.ofBytes [91, 49, 93, 32, 91, 50, 93]) 0 0).map (fun c => c.ictx.map (fun i =>
+    ((i.startLoc.line, i.startLoc.col), (i.endLoc.line, i.endLoc.col))))
+    = [some ((1, 1), (1, 5)), some ((1, 5), (1, 8))] := by decide +kernel
+
+example : AllRows {} 9 (Reader.ofBytes [91, 49, 93, 32, 91, 50, 93]) := by decide +kernel
+
+/-- `location_is_lineCol` on `[1]\n[2]`: after the first call 4 bytes are pulled, one of them LF: line 2, column 1 -/
+example : (Reader.nextJson (Reader.ofBytes [91, 49, 93, 10, 91, 50, 93])).2.loc.line = 2
+    ∧ (Reader.nextJson (Reader.ofBytes [91, 49, 93, 10, 91, 50, 93])).2.loc.col = 1 := by
+  have h := location_after_bytes (bs := [91, 49, 93, 10]) (tail := [91, 50, 93]) (name := none)
+    (nextJson_locInv (locInv_ofItems _ _)) (by decide)
+  exact ⟨h.1, h.2.1⟩
+
 end Jawk.Loc
